@@ -534,3 +534,92 @@ def check_laws(prop, tier, seed):
                    "C25 format_int is checked against an independent long-division model (FnLaws!FormatRadix); timestamps only relationally"]
     mine = [v for v in agg["viols"] if v["prop"] == prop]
     return verdict(prop, tier, seed, "exploration", coverage, mine, assumptions, t0, replay_writer)
+
+
+def check_tz(prop, tier, seed):
+    """C36: calls that do not read the configured timezone (or are pinned by an argument / offset) agree across timezones."""
+    t0 = time.time()
+    wd = workdir(f"{prop}_{tier}")
+    build_harness()
+    U, gst, gtr = universes("GenTz.tla", wd, ["ZONES", "FORMATS", "INSTANTS", "TZARGS"])
+    zones, formats, instants, tzargs = U["ZONES"], U["FORMATS"], U["INSTANTS"], U["TZARGS"]
+    rnd = random.Random(seed)
+    cases = []
+
+    def add(fn, expr, tzarg, pinned, event):
+        cases.append({"worker": "eval", "f": fn, "args": [], "ret": [], "src": expr, "law": {"name": "tz", "fn": fn},
+                      "inp": {"fn": fn, "tzarg": tzarg, "pinned": pinned, "expr": expr},
+                      "event": {"t": "obj", "m": event}, "exprs": {"out": expr}, "tzs": zones})
+
+    for ts in instants:
+        ev = {"t": {"t": "ts", "s": ts}}
+        for f in formats:
+            fmt = f["f"]
+            add("format_timestamp", f"format_timestamp!(.t, \"{fmt}\")", False, False, ev)
+            for z in tzargs:
+                add("format_timestamp", f"format_timestamp!(.t, \"{fmt}\", timezone: \"{z}\")", True, False, ev)
+            # round trip through text: parse what a UTC rendering produced
+            add("parse_timestamp", f"parse_timestamp!(format_timestamp!(.t, \"{fmt}\"), \"{fmt}\")", False, f["pinned"], ev)
+            for z in tzargs:
+                add("parse_timestamp", f"parse_timestamp!(format_timestamp!(.t, \"{fmt}\"), \"{fmt}\", timezone: \"{z}\")", True, f["pinned"], ev)
+        for unit in ("seconds", "milliseconds", "nanoseconds"):
+            add("to_unix_timestamp", f"to_unix_timestamp!(.t, unit: \"{unit}\")", False, False, ev)
+            add("from_unix_timestamp", f"from_unix_timestamp!(to_unix_timestamp!(.t, unit: \"{unit}\"), unit: \"{unit}\")", False, False, ev)
+        add("to_string", "to_string!(.t)", False, False, ev)
+        add("encode_json", "encode_json(.t)", False, False, ev)
+        add("to_int", "to_int!(.t)", False, False, ev)
+        add("to_float", "to_float!(.t)", False, False, ev)
+        add("encode_json", "encode_json({\"at\": .t})", False, False, ev)
+        add("format_timestamp", "format_timestamp!(.t, \"%v %R\")", False, False, ev)
+    # log parsers: input with / without an explicit offset
+    logs = [("parse_common_log", "127.0.0.1 bob frank [10/Oct/2000:13:55:36 -0700] \\\"GET /a HTTP/1.0\\\" 200 2326", True),
+            ("parse_apache_log", "127.0.0.1 bob frank [10/Oct/2000:13:55:36 +0100] \\\"GET /a HTTP/1.0\\\" 200 2326", True),
+            ("parse_syslog", "<13>1 2020-03-13T20:45:38.119Z host app 1 id - msg", True),
+            ("parse_syslog", "<13>Feb 13 20:07:26 host app[1]: msg", False),
+            ("parse_nginx_log", "172.17.0.1 - alice [01/Apr/2021:12:02:31 +0000] \\\"POST /x HTTP/1.1\\\" 200 612 \\\"-\\\" \\\"curl\\\"", True)]
+    for fn, line, pinned in logs:
+        if fn == "parse_apache_log":
+            expr = f"parse_apache_log!(\"{line}\", format: \"common\")"
+        elif fn == "parse_nginx_log":
+            expr = f"parse_nginx_log!(\"{line}\", format: \"combined\")"
+        else:
+            expr = f"{fn}!(\"{line}\")"
+        add(fn, expr, False, pinned, {})
+    add("get_timezone_name", "get_timezone_name!()", False, False, {})
+    # programs that never touch time at all
+    for expr in ["upcase(\"a\")", "1 + 2", "parse_json!(\"{\\\"a\\\": 1}\")", "to_string(1.5)", "split(\"a,b\", \",\")", "md5(\"a\")",
+                 "parse_duration!(\"1s\", \"ms\")", "format_int!(255, 16)", "parse_key_value!(\"a=1 b=2\")", "is_timestamp(.t)"]:
+        add(expr.split("(")[0].rstrip("!"), expr, False, False, {"t": {"t": "ts", "s": instants[0]}})
+    log(f"[{prop}] {len(cases)} expressions x {len(zones)} configured timezones ({time.time()-t0:.0f}s)")
+    cpath = os.path.join(wd, "cases.ndjson")
+    with open(cpath, "w") as f:
+        for c in cases:
+            f.write(json.dumps(c) + "\n")
+    run([VH, "calls", "--cases", cpath, "--out", os.path.join(wd, "tr"), "--shards", str(NCPU), "--deadline-ms", "20000"], cwd=wd, timeout=7200)
+    traces = [os.path.join(wd, f"tr.{i}.ndjson") for i in range(NCPU)]
+    agg = aggregate(validate(traces, wd, spec="Tz.tla", cfg=TRACE_CFG))
+    cnt = agg["cnt"]
+    write_json(os.path.join(wd, "findings.json"), {"viols": agg["viols"][:200]})
+
+    def replay_writer(v):
+        with open(v["_file"]) as f:
+            line = f.readlines()[v["line"] - 1]
+        return {"engine": "C/tz", "record": json.loads(line)}
+
+    coverage = {
+        "evaluations": cnt.get("cases", 0) * len(zones), "distinct_nontrivial": cnt.get("insensitive_ok", 0),
+        "rule": "time-related expressions (format_timestamp / parse_timestamp over 8 formats with and without explicit offsets, with and without a "
+                "`timezone:` argument; unix-timestamp conversions; to_string/to_int/to_float/encode_json of timestamps; the four access-log/syslog "
+                "parsers on inputs with and without an offset; get_timezone_name; expressions that do not touch time) x 10 instants incl. DST "
+                "gaps/overlaps, each evaluated under 6 configured timezones (UTC, +05:30, two DST zones, +12:45/+13:45, local). non-trivial = "
+                "classified insensitive by Tz.tla and at least one evaluation succeeded",
+        "samples": [c["inp"] for c in cases[:3]],
+        "states": gst + agg["states"], "transitions": gtr + agg["transitions"], "traces_validated_against_impl": cnt.get("cases", 0),
+        "cases": cnt.get("cases", 0), "classified_sensitive": cnt.get("sensitive", 0), "classified_insensitive": cnt.get("insensitive", 0),
+        "sensitive_cases_that_really_differ": cnt.get("sensitive_and_differs", 0),
+    }
+    assumptions = ["the set of functions that read the configured timezone (Tz!TzReaders) was established by reading the tree; a call outside it, or "
+                   "pinned by a timezone argument / explicit offset, must agree across zones",
+                   "`local` is whatever the sandbox's TZ is (UTC here)"]
+    mine = [v for v in agg["viols"] if v["prop"] == prop]
+    return verdict(prop, tier, seed, "exploration", coverage, mine, assumptions, t0, replay_writer)
